@@ -259,6 +259,14 @@ def translate_cell(acc, rng, cfgname, hooked):
             ops.append(['c', k_, nv])
             acc.cls('translate:control-changed-between-translations:' + k_)
         target.apply_state(cpu, {k_: pre[k_] for k_ in ('dfsr', 'dfar', 'hsr', 'hdfar', 'hpfar') if k_ in pre})
+        if hooked and (st0['sctlr'] >> 17) & 1:
+            # with SCTLR.HA an earlier translation of this cell may have set an access flag in the tables (hardware management of the access flag, a hook
+            # the hooked target implements): the reference starts from the table memory as it is now
+            for i_, mc_ in enumerate(cpu.mem.memories):
+                cur_ = target.mem_bytes(mc_.mem)
+                if cur_ != pre.get('mem%d' % i_):
+                    pre = dict(pre)
+                    pre['mem%d' % i_] = cur_
         M = Machine(pre, devs, cfg, hooked)
         M.walk_reads = 0
         try:
